@@ -164,3 +164,20 @@ def run_store(trace, stage_funcs=(), public=None, havoc=None):
 
 def launches(trace):
     return [op for op in trace if op.kind == "Launch"]
+
+
+def coordinate_fields(S, dim):
+    """cell-centre coordinate fields as documented: x_a = dx/2 + i_a*dx, varying only along
+    the array axis of direction a (x = last axis)"""
+    dx = psym("x_range") / psym("nx")
+    shape = S.grid_shape(dim)
+    out = {}
+    for a, nm in zip(range(dim), ("x", "y", "z")):
+        axis = dim - 1 - a
+        al = S.I.ext.new_alloc("%s_grid_field" % nm, shape, S.real_t, "param")
+
+        def valfn(idx, axis=axis, dx=dx):
+            return dx / 2 + to_pw(idx[axis]) * dx
+        al.valfn = valfn
+        out["%s_grid_field" % nm] = Arr(al)
+    return out
